@@ -261,7 +261,7 @@ fn k_model_data_write_size() {
     mdl.model_data.header.shape_count = 0; mdl.model_data.header.shape_mesh_count = 0; mdl.model_data.header.shape_value_count = 0;
     let mut buf = [0u8; 640];
     let mut w = Cursor::new(&mut buf[..]);
-    match mdl.model_data.write(&mut w) { Ok(()) => {}, Err(e) => { core::mem::forget(e); assert!(false, "write"); } }
+    match mdl.model_data.write_args(&mut w, binrw::args! { file_header: &mdl.file_header }) { Ok(()) => {}, Err(e) => { core::mem::forget(e); assert!(false, "write"); } }
     let want = mdl.file_header.calculate_stack_size() + mdl.model_data.calculate_runtime_size();
     assert!(w.position() == want as u64, "bytes written by the runtime-block writer = stack_size + runtime_size");
     kani::cover!(true, "reachable");
@@ -350,7 +350,7 @@ fn nmd_variants() -> Vec<(Vec<VertexElement>, [u8; 3])> {
     ]
 }
 
-//@unit props=C07,C06 label=B tier=quick native=1 fn=model::MDL::{write_to_buffer,from_existing,update_headers} bound="by execution: resources/tests/c0201e0038_top_zeroed.mdl with the declaration of one mesh (mesh 1 of LOD 0, mesh 5 of LOD 2) rewritten to each of 4 layouts (every (usage, type) pair the writer supports, interleaved element order, two streams) and its vertices replaced by canonical pseudo-random values; plus the unmodified model"
+//@unit props=C07,C06 label=B tier=quick native=1 fn=model::MDL::{write_to_buffer,from_existing,update_headers} bound="by execution: resources/tests/c0201e0038_top_zeroed.mdl with the declaration of one mesh (mesh 1 of LOD 0, mesh 5 of LOD 2) rewritten to each of 4 layouts (every (usage, type) pair the writer supports, interleaved element order, two streams) and its vertices replaced by canonical pseudo-random values; the unmodified model; and an edit history (remove_shape_meshes, then replace_vertices on both meshes of LOD 0 / LOD 2 with fewer vertices and indices and re-split sub-meshes)"
 //@desc a model written by the library parses back to the same geometry: every vertex attribute of every part (the rewritten part and the untouched ones), every index, the declarations, mesh records and file header; i.e. the writer stores each attribute at LOD vertex offset + stream offset + element offset + stride*k in its own encoding and the reader finds it there
 #[test]
 fn native_mdl_write_parse_identity() {
@@ -359,6 +359,8 @@ fn native_mdl_write_parse_identity() {
     let mut cases = 0u64;
     let same_geometry = |a: &MDL, b: &MDL, what: &str| {
         assert_eq!(a.file_header, b.file_header, "{what}: file header");
+        assert!(a.model_data == b.model_data, "{what}: model header data (mesh, sub-mesh, bone and shape tables, bone maps, bounding boxes) differs after write + parse");
+        assert_eq!((&a.affected_bone_names, &a.material_names), (&b.affected_bone_names, &b.material_names), "{what}: names");
         assert_eq!(a.model_data.header.vertex_declarations, b.model_data.header.vertex_declarations, "{what}: declarations");
         assert_eq!(a.lods.len(), b.lods.len());
         for (l, (la, lb)) in a.lods.iter().zip(b.lods.iter()).enumerate() {
@@ -390,6 +392,37 @@ fn native_mdl_write_parse_identity() {
             same_geometry(&mdl, &back, &format!("layout {vi} on LOD {l} part {p}"));
             cases += 1;
         }
+    }
+    // an edit history: shape meshes removed, then both meshes of a LOD replaced by smaller geometry (so the second mesh's first index moves), for LOD 0 and LOD 2
+    for l in [0usize, 2] {
+        let mut mdl = MDL::from_existing(&bytes).unwrap();
+        mdl.remove_shape_meshes();
+        let mut start = 0u32; let mut want: Vec<(Vec<Vertex>, Vec<u16>, Vec<(u32, u32)>)> = vec![];
+        for p in 0..mdl.lods[l].parts.len() {
+            let j = mdl.lods[l].parts[p].mesh_index as usize;
+            let elements = mdl.model_data.header.vertex_declarations[j].elements.clone();
+            let (nv, ni) = if p == 0 { (300usize, 612usize) } else { (50, 90) };
+            let verts: Vec<Vertex> = (0..nv).map(|k| nmd_vertex(&elements, k, (7000 + l * 10 + p) as u32)).collect();
+            let indices: Vec<u16> = (0..ni).map(|k| ((k * 7 + p) % nv) as u16).collect();
+            let nsub = mdl.lods[l].parts[p].submeshes.len();
+            let mut subs = mdl.lods[l].parts[p].submeshes.clone(); let mut ranges = vec![]; let mut at = start;
+            for (si, sm) in subs.iter_mut().enumerate() { let c = if si + 1 == nsub { start + ni as u32 - at } else { (ni / nsub / 3 * 3) as u32 }; sm.index_offset = at; sm.index_count = c; ranges.push((at, c)); at += c; }
+            mdl.replace_vertices(l, p, &verts, &indices, &subs);
+            want.push((verts, indices, ranges));
+            start += ni as u32;
+        }
+        let back = MDL::from_existing(&mdl.write_to_buffer().expect("write")).expect("an edited model parses");
+        for (p, (verts, indices, ranges)) in want.iter().enumerate() {
+            let part = &back.lods[l].parts[p];
+            assert_eq!(part.vertices.len(), verts.len(), "edited LOD {l} part {p}: vertex count");
+            for (k, (a, b)) in part.vertices.iter().zip(verts.iter()).enumerate() { assert!(a == b, "edited LOD {l} part {p}: vertex {k} is the new vertex"); }
+            assert!(part.indices == *indices, "edited LOD {l} part {p}: parsing returns exactly the new indices");
+            assert_eq!(part.submeshes.iter().map(|s| (s.index_offset, s.index_count)).collect::<Vec<_>>(), *ranges, "edited LOD {l} part {p}: sub-mesh ranges");
+        }
+        for ol in 0..3usize { if ol != l { for (p, part) in back.lods[ol].parts.iter().enumerate() {
+            assert!(part.vertices == original.lods[ol].parts[p].vertices && part.indices == original.lods[ol].parts[p].indices, "LOD {ol} part {p} is untouched by the edit of LOD {l}");
+        } } }
+        cases += 1;
     }
     println!("NATIVE native_mdl_write_parse_identity cases={cases}");
 }
